@@ -141,8 +141,15 @@ crypt_scrypt_rn (const char *phrase, size_t phr_size,
                  uint8_t *output, size_t o_size,
                  void *scratch, size_t s_size)
 {
-  if (o_size < set_size + 1 + 43 + 1 ||
-      CRYPT_OUTPUT_SIZE < set_size + 1 + 43 + 1)
+  /* SETTING may be a complete hash.  Its hash part is not copied to the
+     result, so it must not count against the size of the output.  */
+  size_t echo_size = set_size;
+  const char *hashpart = strrchr (setting, '$');
+  if (hashpart && set_size - (size_t)(hashpart - setting) == 1 + 43)
+    echo_size = (size_t)(hashpart - setting);
+
+  if (o_size < echo_size + 1 + 43 + 1 ||
+      CRYPT_OUTPUT_SIZE < echo_size + 1 + 43 + 1)
     {
       errno = ERANGE;
       return;
